@@ -140,7 +140,10 @@ impl NetcodeServer {
             connect_key,
             max_clients: config.max_clients,
             challenge_sequence: 0,
-            global_sequence: 0,
+            // Packets sent before a connection has its own sequence (challenge, denied) are encrypted with the
+            // same key as that connection's packets. Starting at the upper half keeps their nonces apart
+            // from the per-connection sequences, which start at 0 (same as the netcode reference implementation).
+            global_sequence: 1 << 63,
             challenge_key,
             public_addresses: config.public_addresses,
             current_time: config.current_time,
